@@ -158,32 +158,38 @@ CLAIMED["C02"] = {
             "signed-attribute parser.",
 }
 CLAIMED["C03"] = {
-    "text": "PARTIAL. At full width (u32 / u128, loop-free): AS block "
-            "canonical form, bounds, membership, counts, next/previous at "
-            "both ends; Block::sum == hull iff overlapping or adjacent; IP "
-            "prefix range arithmetic; range <-> prefix canonicalisation; IPv4 "
-            "range -> prefix decomposition tiles the range exactly (<= 8 "
-            "addresses anywhere in the space, 64 in thorough); "
-            "AsBlocks::verify_issued under the no-overclaim policy, "
-            "verify_covered, contains on canonical sets of up to 2 blocks "
-            "(subset <=> granted, nothing outside the issuer). On the generic "
-            "chain code instantiated at an 8-bit block type: collecting 2, 3 "
-            "(thorough: 4) blocks that arrive sorted yields the canonical "
-            "chain of their union; one step of the unsorted collection keeps "
-            "the working blocks pairwise apart and denotes the union (the "
-            "bridging-block defect was found here); is_encompassed and == on "
-            "canonical chains of up to 2 blocks; AS range text is ordered.",
+    "text": "On the generic chain code instantiated at an 8-bit block type "
+            "(both ends of the number space, adjacency and bridging exist at "
+            "8 bits): collecting 3 arbitrary blocks in ANY order (thorough: "
+            "4) through OwnedChain::from_iter yields the canonical chain of "
+            "their union -- the bridging-block defect was found here and "
+            "fixed; sorted collection of 2, 3 (4) blocks; one step and the "
+            "hand-over state of the unsorted path; Chain::difference on "
+            "canonical operands up to 2x2 (thorough 3x2) is the canonical "
+            "set difference; is_encompassed and == up to 2x2. At full width "
+            "(u32 / u128): AS block canonical form, bounds, membership, "
+            "counts, next/previous at both ends; Block::sum == hull iff "
+            "touching; IP prefix range arithmetic; range <-> prefix "
+            "canonicalisation; IPv4 range -> prefix decomposition tiles the "
+            "range (<= 8 addresses, 64 in thorough); AsBlocks::difference "
+            "2x2; AsBlocks::verify_issued (no-overclaim policy), "
+            "verify_covered, contains up to 2x2; AsBlocks collector with 3 "
+            "blocks in any order (thorough); AS range text is ordered.",
     "ref": "§3 C03",
     "note": "Hooks: resources::verif re-export of Block/Chain/OwnedChain, "
-            "verif_merge_or_add_block, AsBlocks::verif_from_vec_unchecked. "
-            "Stub: from_iter_unsorted -> panic in the sorted-collect "
-            "harnesses (the branch is unreachable for sorted input; taking it "
-            "fails the harness). NOT decided: the std sort and the "
-            "adjacent-merge pass at the end of the unsorted collection, "
-            "Chain::trim / difference and hence the trimming policy, union, "
-            "intersection (queries run out of 14 GB), DER range decoding "
-            "(AS: out of memory; IP: Kani ICE), text/serde forms, "
-            "ResourceSet, RequestResourceLimit.",
+            "verif_merge_or_add_block, verif_from_iter_unsorted, "
+            "AsBlocks::verif_from_vec_unchecked. Environment stubs (listed "
+            "per harness in the evidence): core::slice::sort::unstable::"
+            "ipnsort -> panic (std sort uses insertion sort below 21 "
+            "elements; the real insertion sort runs), from_iter_unsorted -> "
+            "panic in the sorted-input harnesses, Vec::new -> "
+            "with_capacity(8), Vec::push -> in-place store (fails the "
+            "harness beyond 8 elements). NOT decided: Chain::trim and hence "
+            "intersection and the trimming policy (slice-to-vec copy of "
+            "symbolic length: out of 14 GB), AsBlocks::union at full width "
+            "(out of memory; the collector it is built on is decided), DER "
+            "range decoding (AS: out of memory; IP: Kani ICE), text/serde "
+            "forms, ResourceSet, RequestResourceLimit, IPv6 decomposition.",
 }
 CLAIMED["C09"] = {
     "text": "PARTIAL: delta-chain check against a sort-and-scan reference "
